@@ -53,6 +53,7 @@ def gen_tables(ctx):
     txt += f"Definition MAX_MEM : Z := {ax._config.max_memory_size}.\n"
     txt += f"Definition MAX_ENTRY : Z := {ax.MAX_ARCHIVE_FILE_SIZE}.\n"
     txt += f"Definition MAX_7Z : Z := {ax.MAX_7Z_FILE_SIZE}.\n"
+    txt += "Definition TAR_REGULAR_TYPES : list N := " + coq_list([f"{x[0]}%N" for x in tarfile.REGULAR_TYPES]) + ".\n"
     hp = sorted(ax.HIDDEN_PATTERNS)
     txt += "Definition HIDDEN_PATTERNS : list str := " + coq_list([coq_str(e) for e in hp]) + ".\n"
     ctx.gen_write("Gen/C09Tables.v", txt)
@@ -641,6 +642,56 @@ def make_cases(ctx, W):
         cases.append({"id": i, "kind": "7z", "actions": ["exhaust"], "path": "A.7z", "count_entries": False, "hex": data.hex()})
         meta[i] = {"kind": "7z", "members": members, "actions": ["exhaust"], "label": "filesinfo-props", "limits": None,
                    "layout": "solid", "props": pinfo}
+    # 5e'. ZIP entries carrying the encryption flag (bit 0) at every position, on skipped names and on directories;
+    #      tar members of every type flag incl. contiguous / old-style regular / block device
+    def b_encflag(Wk, tok, which):
+        names = ["first.txt", ".hidden.txt", "dd/", "mid.md", "x.exe", "last.txt"]
+        ms = [{"cls": "enc-" + which, "name": n, "token": tok(j), "data": None if n.endswith("/") else f"{tok(j)} body".encode()}
+              for j, n in enumerate(names)]
+        b = io.BytesIO()
+        with zipfile.ZipFile(b, "w", zipfile.ZIP_STORED) as z:
+            for mm in ms:
+                z.writestr(mm["name"], mm["data"] or b"")
+        raw = bytearray(b.getvalue())
+        pos, k = raw.find(b"PK\x01\x02"), 0
+        while pos >= 0:
+            if names[k] == which:
+                raw[pos + 8] |= 1
+            k += 1
+            pos = raw.find(b"PK\x01\x02", pos + 4)
+        for mm in ms:
+            mm["lie"] = True            # results of this archive are not attributed: the whole archive must fail
+        return bytes(raw), ms
+    for which in ["first.txt", ".hidden.txt", "dd/", "mid.md", "x.exe", "last.txt"]:
+        add_built("zip", lambda Wk, tok, which=which: b_encflag(Wk, tok, which), ["exhaust"], "zip-encrypted-flag:" + which)
+
+    def b_tartypes(Wk, tok):
+        specs, ms = [], []
+        for j, (nm, ty) in enumerate([("reg.txt", tarfile.REGTYPE), ("cont.txt", tarfile.CONTTYPE), ("areg.txt", tarfile.AREGTYPE),
+                                      ("blk.txt", tarfile.BLKTYPE), ("chr.txt", tarfile.CHRTYPE), ("fifo.txt", tarfile.FIFOTYPE),
+                                      ("sym.txt", tarfile.SYMTYPE), ("hard.txt", tarfile.LNKTYPE), ("dir.txt", tarfile.DIRTYPE),
+                                      ("after.md", tarfile.REGTYPE)]):
+            regular = ty in (tarfile.REGTYPE, tarfile.CONTTYPE, tarfile.AREGTYPE)
+            d = f"{tok(j)} body {nm}".encode()
+            ms.append({"cls": "plain" if regular else "tar-type-" + ty.decode("latin1"), "name": nm, "token": tok(j),
+                       "data": d if regular else None, "tartype": None if regular else "special"})
+        b = io.BytesIO()
+        with tarfile.open(fileobj=b, mode="w", format=tarfile.GNU_FORMAT) as tfw:
+            for mm, (nm, ty) in zip(ms, [(x["name"], None) for x in ms]):
+                pass
+            for j, mm in enumerate(ms):
+                ti = tarfile.TarInfo(mm["name"])
+                ti.type = [tarfile.REGTYPE, tarfile.CONTTYPE, tarfile.AREGTYPE, tarfile.BLKTYPE, tarfile.CHRTYPE, tarfile.FIFOTYPE,
+                           tarfile.SYMTYPE, tarfile.LNKTYPE, tarfile.DIRTYPE, tarfile.REGTYPE][j]
+                if mm["data"] is not None:
+                    ti.size = len(mm["data"])
+                    tfw.addfile(ti, io.BytesIO(mm["data"]))
+                else:
+                    ti.linkname = os.path.join(Wk, "canary", "secret.txt") if ti.type in (tarfile.SYMTYPE, tarfile.LNKTYPE) else ""
+                    tfw.addfile(ti)
+        return effective("tar", b.getvalue(), ms)
+    add_built("tar", b_tartypes, ["exhaust"], "tar-all-type-flags")
+    add_built("tar.gz", b_tartypes, ["exhaust"], "tar-all-type-flags")
     # 5f. the SECOND occurrence of a name: duplicate member names whose entries differ in what the rules see (size),
     #     in both orders, in every container — each entry must be judged and read on its own
     for kind, zm in [("zip", zipfile.ZIP_STORED), ("zip", zipfile.ZIP_DEFLATED), ("tar", None), ("tar.gz", None), ("7z", None)]:
@@ -979,10 +1030,12 @@ def run(ctx):
         "C09_reads_subset_writes_refuted_orig", "C09_skips", "C09_tempdir_balance", "C09_tempdir_gone",
         "C09_tempdir_gone_when_done", "C09_zip_tar_no_fs", "C09_7z_paths_from_safe_join",
         "C09_ignored_props_inert", "C09_streamless_entries_inert", "C09_streamless_no_write_outside",
-        "C09_oversize_on_disk_never_read"])
+        "C09_oversize_on_disk_never_read", "C09_tar_reads_pass_all_rules", "C09_tar_links_devices_never_read",
+        "C09_zip_reads_pass_all_rules", "C09_zip_encrypted_nothing_read"])
     ctx.prove("C09/Inst.v", ["Gen/C09Tables.vo", "Gen/C09Skel.vo", "C09/Corr.vo", "C09/Proofs.vo"], expected=[
         "C09_limits_wf", "C09_routed_archive_exts_skipped", "C09_archive_registered", "C09_skel_zip_tar_no_fs",
-        "C09_skel_zip_tar_reads_in_memory", "C09_skel_7z_paths_from_safe_join", "C09_skips_refuted_orig"])
+        "C09_skel_zip_tar_reads_in_memory", "C09_skel_7z_paths_from_safe_join", "C09_skips_refuted_orig",
+        "C09_tar_regular_types_wf"])
 
     from sharepoint2text.parsing import router
     from sharepoint2text.parsing.extractors import archive_extractor as ax
@@ -1036,6 +1089,7 @@ def run(ctx):
     z7_info, life_info, skip_info = [], [], []
     size_cases, size_info = [], []
     fi_cases, fi_info = [], []
+    loop_cases, loop_info = [], []
     herr = []
     pre_prog = {}
     for c in cases:
@@ -1075,6 +1129,25 @@ def run(ctx):
                     mt = None
                 skip_cases.append(f"({coq_str(fn)}, {coq_str(bn)}, {coq_str(bl)}, {coq_opt(mt, coq_str)}, {coq_bool(sk)})")
                 skip_info.append(fn)
+        if m["kind"] != "7z" and m["actions"] == ["exhaust"] and r.get("listing") is not None and r["steps"]:
+            outc = r["steps"][0][1]
+            want = None
+            if outc == "stop":
+                rd = [t[2] for t in r["trace"] if t[0] == "read"]
+                if all(isinstance(x, int) for x in rd):
+                    want = "Some " + coq_list([f"{x}%nat" for x in rd])
+            elif outc == "raise:ExtractionFileEncryptedError" and not any(t[0] == "read" for t in r["trace"]):
+                want = "None"
+            if want is not None:
+                skipped = sorted({t[1] for t in r["trace"] if t[0] == "skip" and t[3]})
+                ms_ = coq_list(["{| a_name := %s; a_dir := %s; a_enc := %s; a_type := %d%%N; a_size := %s |}"
+                                % (coq_str(a), coq_bool(b), coq_bool(c_), d, coq_Z(e)) for a, b, c_, d, e in r["listing"]])
+                loop_cases.append("(%s, %s, TAR_REGULAR_TYPES, %s, %s, %s)" % (
+                    coq_bool(m["kind"].startswith("tar")), coq_Z(r["max_mem"]), ms_, coq_list([coq_str(x) for x in skipped]), want))
+                loop_info.append((c["id"], m["kind"], m["label"], outc))
+            elif outc.startswith("raise:ExtractionFileEncryptedError"):
+                ctx.finding(f"encrypted-after-read:{m['kind']}", "a ZIP member was read before the encrypted entry was reported",
+                            {"label": m["label"], "archive_hex": c.get("hex")})
         if m["label"] == "boundary":
             alltext = "\n".join(x for ts in r["texts"] for x in ts)
             for mm in m["members"]:
@@ -1257,6 +1330,8 @@ def run(ctx):
     corr("sevenzip_fs_events", "case7z_ok", z7_cases, "case7z", info=z7_info, shard=100)
     corr("sevenzip_filesinfo_props", "filesinfo_case", fi_cases, "nat * list fprop * option (list (str * bool * N))",
          info=fi_info, shard=200)
+    corr("zip_tar_member_loops", "loop_case", loop_cases, "bool * Z * list N * list amember * list str * option (list nat)",
+         info=loop_info, shard=150)
     corr("size_rule", "(size_case T NE ARCHIVE)", size_cases, "Z * Z * Z * Z * bool", info=size_info, shard=300)
     corr("lifecycle", "life_case", life_cases, "prog * list action * list (Z * bool)", info=life_info, shard=300)
 
